@@ -113,6 +113,17 @@ Theorem C10_concurrent_last_writer_wins :
 Proof. exact concurrent_last_writer_wins. Qed.
 Print Assumptions C10_concurrent_last_writer_wins.
 
+(* linearizability with return values: the calls, in the order in which their bodies ran, are the calls in
+   lock-acquisition order, and every caller got exactly the answer the sequential history gives at that position
+   (an IsDenied asked concurrently with a deny or a prune answers as if it ran wholly before or wholly after it) *)
+Theorem C10_concurrent_responses_are_sequential :
+  forall progs (s0 : st) sched (s : cstate),
+    SerialEq.run ueqb dupd sched (SerialEq.init progs (fun _ => s0)) = Some s -> SerialEq.finished s = true ->
+    map fst (SerialEq.hist s) = SerialEq.acqs s /\
+    map snd (SerialEq.hist s) = snd (run s0 (map (@SerialEq.c_op unit op) (SerialEq.acqs s))).
+Proof. exact concurrent_responses_are_sequential. Qed.
+Print Assumptions C10_concurrent_responses_are_sequential.
+
 (* non-vacuity: three threads (deny 1 then ask; a session request for 1; an allow for 2); the schedule lets the session
    request in first, then the deny, the allow, the question: the lock was taken in the order 1,0,2,0 and the store is
    what that sequential history gives: 1 denied (the later deny took it off the allow list), 2 allowed *)
@@ -123,6 +134,16 @@ Example C10_concurrent_witness :
                abs_lookup (SerialEq.st s tt) 1%N, abs_lookup (SerialEq.st s tt) 2%N)
   | None => (false, [], None, None)
   end = (true, [1; 0; 2; 0], Some (Denied, 100%Z), Some (Allowed, 50%Z)).
+Proof. vm_compute. reflexivity. Qed.
+
+(* the answers in that execution: the session request was granted (200) because it got in before the deny; the
+   question asked after the deny is answered true *)
+Example C10_concurrent_responses_witness :
+  let progs := [[(tt, ODeny 1 100); (tt, OIsDenied 1)]; [(tt, HSession false 1 70)]; [(tt, OAllow 2 50)]]%N in
+  match SerialEq.run ueqb dupd [1;1;1; 0;0;0; 2;2;2; 0;0;0] (SerialEq.init progs (fun _ => init 10)) with
+  | Some s => map snd (SerialEq.hist s)
+  | None => []
+  end = [RStatus 200; RUnit; RUnit; RBool true].
 Proof. vm_compute. reflexivity. Qed.
 
 (* non-vacuity: a concrete history reaching a state with both lists populated, where the
